@@ -1,1 +1,158 @@
 // verification harness (compiled into ntpd/src/daemon/spawn/standard.rs under cfg(all(test, pendulum_project_ntpd_rs_verif)))
+//
+// Harness for spec/Spawner.tla, part Standard (C36): drives the real `StandardSpawner` with
+//   {"t":"TrySpawn","fail":bool,"ans":[addr..]}   try_spawn with the next DNS lookup scripted (as in spawn_pool.rs)
+//   {"t":"Removed","reason":".."}                 handle_source_removed for the source created last
+// and observes the SpawnEvent stream, is_complete() and the private fields `resolved` / `has_spawned`.
+// Model address k is 127.0.0.k:123 (resolve_single_ntp_server connects a UDP socket to it: loopback only).
+#![allow(clippy::all, dead_code)]
+
+use super::*;
+use crate::daemon::config::NormalizedAddress;
+use crate::daemon::spawn::SourceCreateParameters;
+use ntp_proto::ProtocolVersion;
+use serde_json::{Value, json};
+use std::net::{IpAddr, Ipv4Addr};
+
+#[path = "/verif/harness/common/util.rs"]
+mod util;
+
+fn sock(k: i64) -> SocketAddr {
+    SocketAddr::new(IpAddr::V4(Ipv4Addr::new(127, 0, 0, k as u8)), 123)
+}
+
+fn model_addr(a: &SocketAddr) -> i64 {
+    match a.ip() {
+        IpAddr::V4(v4) if v4.octets()[..3] == [127, 0, 0] && a.port() == 123 => v4.octets()[3] as i64,
+        _ => -1,
+    }
+}
+
+struct Sut {
+    sp: StandardSpawner,
+    tx: mpsc::Sender<SpawnEvent>,
+    rx: mpsc::Receiver<SpawnEvent>,
+    last_id: Option<ClockId>,
+    rt: tokio::runtime::Runtime,
+}
+
+impl Sut {
+    fn new() -> Sut {
+        let sp = StandardSpawner::new(
+            StandardSource {
+                address: NormalizedAddress::with_hardcoded_dns("server.verif.test", 123, vec![]).into(),
+                ntp_version: ProtocolVersion::V4,
+            },
+            SourceConfig::default(),
+        );
+        let (tx, rx) = mpsc::channel(64);
+        let rt = tokio::runtime::Builder::new_current_thread().enable_all().build().unwrap();
+        Sut { sp, tx, rx, last_id: None, rt }
+    }
+
+    fn state(&self) -> Value {
+        json!({"resolved": self.sp.resolved.as_ref().map(model_addr).unwrap_or(0), "spawned": self.sp.has_spawned})
+    }
+
+    fn apply(&mut self, act: &Value) -> (Value, Value, Option<String>) {
+        let mut creates: Vec<Value> = vec![];
+        let mut panic = None;
+        match act["t"].as_str().unwrap() {
+            "TrySpawn" => {
+                let answer = if act["fail"].as_bool().unwrap() {
+                    None
+                } else {
+                    Some(act["ans"].as_array().unwrap().iter().map(|k| sock(k.as_i64().unwrap())).collect())
+                };
+                self.sp.config.address.0.verif_script_dns(answer);
+                let (sp, tx, rt) = (&mut self.sp, &self.tx, &self.rt);
+                match util::catch(|| rt.block_on(sp.try_spawn(tx))) {
+                    Ok(Ok(())) => {}
+                    Ok(Err(e)) => panic = Some(format!("try_spawn returned an error: {e:?}")),
+                    Err(p) => panic = Some(p),
+                }
+                while let Ok(ev) = self.rx.try_recv() {
+                    let ok = ev.id == self.sp.get_id();
+                    let SpawnAction::Create(params) = ev.action;
+                    match params {
+                        SourceCreateParameters::Ntp(p) if ok && p.nts.is_none() => {
+                            self.last_id = Some(p.id);
+                            creates.push(json!(model_addr(&p.addr)));
+                        }
+                        _ => creates.push(json!(-2)),
+                    }
+                }
+            }
+            "Removed" => {
+                let reason = match act["reason"].as_str().unwrap() {
+                    "Demobilized" => SourceRemovalReason::Demobilized,
+                    "NetworkIssue" => SourceRemovalReason::NetworkIssue,
+                    _ => SourceRemovalReason::Unreachable,
+                };
+                let id = self.last_id.unwrap_or_else(ClockId::new);
+                let (sp, rt) = (&mut self.sp, &self.rt);
+                match util::catch(|| rt.block_on(sp.handle_source_removed(SourceRemovedEvent { id, reason }))) {
+                    Ok(Ok(())) => {}
+                    Ok(Err(e)) => panic = Some(format!("handle_source_removed returned an error: {e:?}")),
+                    Err(p) => panic = Some(p),
+                }
+                if self.rx.try_recv().is_ok() {
+                    creates.push(json!(-2));
+                }
+            }
+            t => panic!("unknown action {t}"),
+        }
+        let out = json!({"creates": creates, "complete": self.sp.is_complete()});
+        (self.state(), out, panic)
+    }
+}
+
+fn compare(exp_post: &Value, exp_out: &Value, st: &Value, out: &Value, panic: &Option<String>) -> Vec<String> {
+    let mut d = vec![];
+    if panic.is_some() {
+        d.push("panic".to_string());
+        return d;
+    }
+    for k in ["resolved", "spawned"] {
+        if exp_post[k] != st[k] {
+            d.push(k.to_string());
+        }
+    }
+    for k in ["creates", "complete"] {
+        if exp_out[k] != out[k] {
+            d.push(format!("out.{k}"));
+        }
+    }
+    d
+}
+
+fn replay(job: &Value) {
+    let walks = util::read_ndjson(job["input"].as_str().unwrap());
+    let mut out = util::NdjsonOut::create(job["output"].as_str().unwrap());
+    for w in walks {
+        let mut sut = Sut::new();
+        let steps = w["walk"].as_array().unwrap();
+        let mut fail = Value::Null;
+        let mut run = 0;
+        for (n, st) in steps.iter().enumerate() {
+            let (obs_st, obs_out, panic) = sut.apply(&st["act"]);
+            run = n + 1;
+            let d = compare(&st["post"], &st["out"], &obs_st, &obs_out, &panic);
+            if !d.is_empty() {
+                fail = json!({"step": n, "fields": d, "observed": {"st": obs_st, "out": obs_out}, "panic": panic});
+                break;
+            }
+        }
+        out.put(&json!({"id": w["id"], "steps_run": run, "fail": fail}));
+    }
+    out.finish();
+}
+
+#[test]
+fn verif_standard() {
+    let job = util::job();
+    match job["mode"].as_str().unwrap() {
+        "replay" => replay(&job),
+        m => panic!("unknown mode {m}"),
+    }
+}
